@@ -4,6 +4,7 @@
   run against the rebuilt library by the ops of Mpir/Ops/PowmLimb.lean.
 -/
 import MpirProofs.Lemmas.PowmLimb
+import Mpir.Model.Hgcd
 namespace Mpir.PowmL
 open Mpir Mpir.Powm
 
@@ -161,5 +162,30 @@ example : (mpnPowmMem 100 id (fun n => 6 * n + 220) 3 [3, 4, 5] [77] [7, 9]).2 =
 example : mpnPowmMem 1 id (fun n => 6 * n + 220) 232 [3, 4, 5] [77] [7, 9] =
     (toLimbs 2 (val [3, 4, 5] ^ 77 % val [7, 9]), true) := by decide +kernel
 example : (mpnPowmMem 1 id (fun n => 6 * n + 220) 231 [3, 4, 5] [77] [7, 9]).2 = false := by decide +kernel
+
+/-- `mpn_powm_correct` with `mpn_mulmod_bnm1_next_size` as defined in gmp-impl.h:3876 (model
+    `Hgcd.bnm1NextSize` over the generated constants): for moduli of at most `2·FFT_MULMOD_2EXPP1_CUTOFF`
+    limbs (256 limbs = 16384 bits in the pinned build) `rn = n`, the hypothesis on the next size is discharged
+    and the statement is unconditional. -/
+theorem mpn_powm_correct_upto_cutoff (cutoff numN : Nat) (tab : List Nat) (thr : Nat) (binvItch : Nat → Nat)
+    (itch : Nat) (bp ep mp : List Nat)
+    (hep : Norm ep) (hne : ep ≠ []) (hmp : Limbs mp) (hn : 1 ≤ mp.length) (hodd : val mp % 2 = 1)
+    (hsmall : mp.length ≤ 2 * cutoff)
+    (hitch : 2 * mp.length ≤ itch) (hbinv : thr ≤ mp.length → binvItch mp.length ≤ itch) :
+    (mpnPowmMem thr (Mpir.Hgcd.bnm1NextSize cutoff numN tab) binvItch itch bp ep mp).2 = true ∧
+    (mpnPowmMem thr (Mpir.Hgcd.bnm1NextSize cutoff numN tab) binvItch itch bp ep mp).1
+      = toLimbs mp.length (val bp ^ val ep % val mp) := by
+  have hns : thr ≤ mp.length → mp.length ≤ Mpir.Hgcd.bnm1NextSize cutoff numN tab mp.length ∧
+      Mpir.Hgcd.bnm1NextSize cutoff numN tab mp.length < 2 * mp.length := by
+    intro _
+    unfold Mpir.Hgcd.bnm1NextSize
+    rw [if_pos hsmall]
+    omega
+  obtain ⟨h1, h2, _, _⟩ := mpn_powm_correct thr _ binvItch itch bp ep mp hep hne hmp hn hodd hns hitch hbinv
+  exact ⟨h1, h2⟩
+
+-- non-vacuity: the constants of the pinned build (FFT_MULMOD_2EXPP1_CUTOFF = 128), redc_n branch forced by thr = 1
+example : (mpnPowmMem 1 (Mpir.Hgcd.bnm1NextSize 128 19 [4, 3, 3, 4, 3, 3, 3, 3, 3, 2, 2, 2, 2, 2, 2, 2, 2, 1, 1])
+    (fun n => 6 * n + 220) 232 [5] [1000] [7, 9]) = (toLimbs 2 (5 ^ 1000 % val [7, 9]), true) := by decide +kernel
 
 end Mpir.PowmL
